@@ -323,7 +323,10 @@ def boundary_call(rng, ctx, K, mon, kind, kw):
         mon.boundary = None
 
 
-def insitu(rng, ctx, scn, kind, mon=None):
+ALIGNMENT_STATES = ('aligned', 'fixed energy unaligned', 'all supplied unaligned', 'integer slice of a run dimension')
+
+
+def insitu(rng, ctx, scn, kind, mon=None, i=0):
     """convert(..., target='energy_transfer') on a data array; the monitors see the kernel call."""
     kw, sig = gen(rng, ctx, kind, 'binned' if rng.random() < 0.5 else '2d', False,
                   ('meV', 'us', 'm', 'm'))
@@ -337,6 +340,23 @@ def insitu(rng, ctx, scn, kind, mon=None):
         da = sc.DataArray(sc.bins(begin=c['begin'], end=c['end'], dim='event', data=ev), coords=coords)
     else:
         da = sc.DataArray(sc.ones(dims=tof.dims, shape=tof.shape), coords={**coords, 'tof': tof})
+    # A supplied coordinate counts whatever its alignment flag says: scipp marks coordinates unaligned when a
+    # dimension they depend on is sliced with an integer index and when an earlier conversion consumed them.
+    state = ALIGNMENT_STATES[(i // 2) % len(ALIGNMENT_STATES)]
+    ctx.hit('convert input: ' + state)
+    if state == 'fixed energy unaligned':
+        da.coords.set_aligned(en, False)
+    elif state == 'all supplied unaligned':
+        for nm in ('L1', 'L2', en):
+            da.coords.set_aligned(nm, False)
+    elif state == 'integer slice of a run dimension':
+        # two runs with their own fixed energy; the run that is looked at is the one generated above
+        other = da.copy()
+        other.coords[en] = da.coords[en] * 1.5
+        both = sc.concat([other, da], 'run')
+        da = both['run', 1].copy()
+        if da.coords[en].aligned and 'run' not in kw[en].dims:
+            ctx.count('slice left the fixed energy aligned')
     # positions that contradict the supplied L1/L2 (the real flight path of an indirect spectrometer is not the
     # straight line): the supplied lengths must win, also when an earlier conversion already consumed them
     npx = kw['L2'].sizes.get('pixel', 1)
@@ -369,14 +389,15 @@ LAYOUTS = ['scalar', '2d', 'binned', 'common_tof']
 
 def plan(tier, seed):
     n = 8 if tier == 'quick' else 16
-    return [{'cases': 100 if tier == 'quick' else 20000, 'insitu': 10 if tier == 'quick' else 1500}
+    return [{'cases': 600 if tier == 'quick' else 20000, 'insitu': 48 if tier == 'quick' else 1500}
             for _ in range(n)]
 
 
 def requirements(tier):
     return {'events': {'energy_transfer_direct_from_tof': 100, 'energy_transfer_indirect_from_tof': 100},
             'forced': ['tof below t0', 'boundary sextuple', 'per-pixel L1',
-                       'float32 with extreme units inside the domain', 'dead pixel (NaN fixed-leg input)'],
+                       'float32 with extreme units inside the domain', 'dead pixel (NaN fixed-leg input)']
+            + ['convert input: ' + a for a in ALIGNMENT_STATES],
             'counters': {'boundary_points': 500, 'decided:below t0': 200, 'decided:above t0': 2000,
                          'convert_calls': 10},
             }
@@ -431,7 +452,7 @@ def run(shard, ctx):
         mon.meta = {'family': 'convert'}
         for i in range(shard['insitu']):
             try:
-                ctx.case(insitu(rng, ctx, scn, 'direct' if i % 2 == 0 else 'indirect', mon))
+                ctx.case(insitu(rng, ctx, scn, 'direct' if i % 2 == 0 else 'indirect', mon, i))
                 ctx.count('convert_calls')
             except Exception as e:  # noqa: BLE001
                 ctx.violation('convert_raised', f'convert raised {type(e).__name__}: {e}', {'family': 'convert'})
